@@ -758,9 +758,11 @@ class Frame(object):
             bounding_max = min(max(self.get_index(bounding_f_range[1]), 0), self.fchans)
             
         restricted_fs = self.fs[bounding_min:bounding_max]
-        if integrate_f_profile:
+        restricted_fchans = len(restricted_fs)
+        # An empty bounding range (e.g. wholly outside the band) has no
+        # channels to sub-sample
+        if integrate_f_profile and restricted_fchans > 0:
             f0 = restricted_fs[0]
-            restricted_fchans = len(restricted_fs)
             restricted_fs = np.linspace(f0,
                                         f0 + restricted_fchans * self.df,
                                         restricted_fchans * f_subsamples,
@@ -790,7 +792,7 @@ class Frame(object):
             if t_profile.shape != self.ts.shape:
                 raise ValueError('Shape of t_profile array is {0} != {1}.'
                                  .format(t_profile.shape, self.ts.shape))
-        elif isinstance(t_profile, (int, float)):
+        elif isinstance(t_profile, (int, float, np.integer, np.floating)):
             t_profile = np.full(self.tchans, t_profile)
         else:
             raise TypeError('t_profile is not a function, array, or float.')
@@ -828,7 +830,7 @@ class Frame(object):
             if path.shape != (tchans_eff,):
                 raise ValueError(f'Shape of path array is {path.shape} '
                                  f'!= {(tchans_eff,)}.')
-        elif isinstance(path, (int, float)):
+        elif isinstance(path, (int, float, np.integer, np.floating)):
             path = np.full(tchans_eff, path)
         else:
             raise TypeError('path is not a function, array, or float.')
@@ -846,11 +848,15 @@ class Frame(object):
             bp_profile = bp_profile(restricted_fs)
         elif isinstance(bp_profile, (list, np.ndarray)):
             bp_profile = np.array(bp_profile)
-            if bp_profile.shape != restricted_fs.shape:
+            # One value per frequency channel in the (bounded) range
+            if bp_profile.shape != (restricted_fchans,):
                 raise ValueError('Shape of bp_profile array is {0} != {1}.'
                                  .format(bp_profile.shape,
-                                         restricted_fs.shape))
-        elif isinstance(bp_profile, (int, float)):
+                                         (restricted_fchans,)))
+            if integrate_f_profile:
+                # Every sub-sample of a channel shares the channel's value
+                bp_profile = np.repeat(bp_profile, f_subsamples)
+        elif isinstance(bp_profile, (int, float, np.integer, np.floating)):
             bp_profile = np.full(restricted_fs.shape, bp_profile)
         else:
             raise TypeError('bp_profile is not a function, array, or float.')
